@@ -57,6 +57,8 @@ pub struct GenCfg {
     pub grouping: bool,
     pub start: Date,
     pub day_span: i64,
+    /// probability that a transaction is dated before its predecessor (ledgers need not be in date order)
+    pub p_date_disorder: (u64, u64),
     /// stop generating after the first entry the model does not accept
     pub stop_at_reject: bool,
 }
@@ -90,6 +92,7 @@ impl GenCfg {
             grouping: rng.chance(1, 2),
             start: Date::new(2024, 1, 1),
             day_span: 1 + rng.below(400) as i64,
+            p_date_disorder: (if rng.chance(1, 3) { 1 } else { 0 }, 3),
             stop_at_reject: true,
         }
     }
@@ -369,6 +372,12 @@ impl<'a> LedgerGen<'a> {
 
     fn next_date(&mut self) -> Date {
         let step = self.rng.below((self.cfg.day_span as u64 / 4).max(1) + 1) as i64;
+        if self.rng.chance(self.cfg.p_date_disorder.0, self.cfg.p_date_disorder.1) {
+            // entered late: dated somewhere before the newest transaction so far
+            let back = self.rng.below(self.cfg.day_span as u64 + 1) as i64;
+            let d = self.date.plus_days(-back);
+            return if d < self.cfg.start { self.cfg.start } else { d };
+        }
         self.date = self.date.plus_days(step);
         self.date
     }
@@ -897,7 +906,40 @@ impl<'a> TreeState<'a> {
                 self.extra.entry(keep).or_insert_with(|| "keep\n".to_string());
             }
             let use_glob = chunk.len() >= 2 && left >= 2 && self.rng.chance(1, 2);
-            if use_glob {
+            if use_glob && self.rng.chance(1, 4) {
+                // wildcard in a directory component: the matches live in two sibling directories
+                // and their file names sort differently from their paths
+                let parts = 2 + self.rng.usize((chunk.len() - 1).min(left - 1).min(2));
+                let per = chunk.len().div_ceil(parts);
+                let names: [(&str, &str); 3] = [("a", "02"), ("b", "01"), ("b", "03")];
+                let same_name = self.rng.chance(1, 3);
+                let mut made: Vec<(usize, Vec<Entry>)> = Vec::new();
+                for (pi, c) in chunk.chunks(per).enumerate() {
+                    let (d, n) = names[pi.min(2)];
+                    let p = if same_name {
+                        format!("{}/y{}{}/part{}.ledger", abs_dir, k, ["a", "b", "c"][pi.min(2)], k)
+                    } else {
+                        format!("{}/y{}{}/part{}-{}.ledger", abs_dir, k, d, k, n)
+                    };
+                    let mut f = FileSpec::new(&p);
+                    f.crlf = self.rng.chance(1, 6);
+                    self.files.push(f);
+                    made.push((self.files.len() - 1, c.to_vec()));
+                }
+                let pat = if same_name {
+                    format!("{}y{}?/part{}.ledger", rel_dir, k, k)
+                } else {
+                    format!("{}y{}*/part{}-*.ledger", rel_dir, k, k)
+                };
+                self.files[idx].push(Entry::Include(pat));
+                if self.cfg.dotfiles && self.rng.chance(1, 2) {
+                    // a dot directory next to the matched ones
+                    self.extra.insert(format!("{}/.y{}a/part{}-00.ledger", abs_dir, k, k), decoy_text(k));
+                }
+                for (fi, c) in made {
+                    self.fill(fi, c, depth + 1);
+                }
+            } else if use_glob {
                 let parts = 2 + self.rng.usize((chunk.len() - 1).min(left - 1).min(3));
                 let per = chunk.len().div_ceil(parts);
                 let question = self.rng.chance(1, 4);
